@@ -36,6 +36,7 @@ type req struct {
 	Reset  bool     `json:"reset,omitempty"` // reset the latch first
 	Src    string   `json:"src,omitempty"`
 	Passes int      `json:"passes,omitempty"`
+	Fixes  bool     `json:"fixes,omitempty"`
 }
 
 type passResult struct {
@@ -148,7 +149,16 @@ func serve(r *req) (out resp) {
 			var fset *token.FileSet
 			var pass *analysis.Pass
 			pass, fset = mkPass(r.Src, func(d analysis.Diagnostic) {
-				pr.Diags = append(pr.Diags, fmt.Sprintf("%s: %s", fset.Position(d.Pos), d.Message))
+				line := fmt.Sprintf("%s: %s", fset.Position(d.Pos), d.Message)
+				if r.Fixes {
+					for _, sf := range d.SuggestedFixes {
+						for _, te := range sf.TextEdits {
+							line += fmt.Sprintf(" [fix %d-%d %q]", fset.Position(te.Pos).Offset, fset.Position(te.End).Offset, string(te.NewText))
+						}
+						line += fmt.Sprintf(" {fixes=%d edits=%d}", len(d.SuggestedFixes), len(sf.TextEdits))
+					}
+				}
+				pr.Diags = append(pr.Diags, line)
 			})
 			_, err := analyzer.Analyzer.Run(pass)
 			if err != nil {
